@@ -43,6 +43,8 @@ func newHalf() *half {
 
 // Stream is one end of a simulated byte stream; it implements net.Conn.
 type Stream struct {
+	// CloseDelay makes Close take that long before the stream counts as closed.
+	CloseDelay time.Duration
 	rd, wr     *half // rd: what this end reads; wr: the peer's rd
 	local, rem Addr
 	closes     atomic.Int32
@@ -205,6 +207,9 @@ func (s *Stream) Write(p []byte) (int, error) {
 
 // Close closes this end: the peer reads EOF after draining, own reads fail.
 func (s *Stream) Close() error {
+	if d := s.CloseDelay; d > 0 {
+		time.Sleep(d) // a close that takes a while (TLS close_notify, lingering socket)
+	}
 	first := s.closes.Add(1) == 1
 	s.rd.mu.Lock()
 	s.rd.closed = true
@@ -260,9 +265,9 @@ func (s *Stream) SetWriteDeadline(t time.Time) error {
 
 // Listener hands out the server ends of simulated streams.
 type Listener struct {
-	mu     sync.Mutex
-	cond   *sync.Cond
-	queue  []*Stream
+	mu       sync.Mutex
+	cond     *sync.Cond
+	queue    []*Stream
 	closed   bool
 	all      []*Stream
 	accepted []*Stream
@@ -561,4 +566,8 @@ func (c *ScriptedDatagramConn) SetReadDeadline(t time.Time) error {
 func (c *ScriptedDatagramConn) SetWriteDeadline(time.Time) error { return nil }
 
 // Remaining returns the number of scripted datagrams not consumed.
-func (c *ScriptedDatagramConn) Remaining() int { c.mu.Lock(); defer c.mu.Unlock(); return len(c.script) }
+func (c *ScriptedDatagramConn) Remaining() int {
+	c.mu.Lock()
+	defer c.mu.Unlock()
+	return len(c.script)
+}
